@@ -22,6 +22,7 @@ import stat as stat_mod
 import sys
 
 SIM_ROOT = "/sim"
+SIM_HOME = "home/user"      # what ~ expands to inside the simulation (a SimFS directory)
 
 REPO = os.environ.get("VERIF_REPO", "/repo")
 
@@ -251,10 +252,16 @@ class SimFS(object):
         prefix = key + "/"
         return key not in self.files and any(k.startswith(prefix) for k in self.files)
 
+    def _through_file(self, key):
+        parts = key.split("/")
+        return any("/".join(parts[:i]) in self.files for i in range(1, len(parts)))
+
     def open(self, key, mode="r", buffering=-1, encoding=None, errors=None, newline=None, **_kw):
         binary = "b" in mode
         m = mode.replace("b", "").replace("t", "")
         self.log.add("OPEN", key, mode)
+        if self._through_file(key):
+            raise NotADirectoryError(errno.ENOTDIR, os.strerror(errno.ENOTDIR), key)
         if m in ("r", "r+"):
             if key in self.faults:
                 kind, err = self.faults.pop(key)
@@ -445,6 +452,15 @@ class _Seams(object):
                 return real_os_open(path, flags, *a, **kw)
             raise HarnessError("os.open on a simulated path (%r): seam not modelled" % (path,))
 
+        real_expanduser = posixpath.expanduser
+
+        def sim_expanduser(path):
+            p = os.fspath(path)
+            if isinstance(p, str) and (p == "~" or p.startswith("~/")):
+                return SIM_ROOT + "/" + SIM_HOME + p[1:]
+            return real_expanduser(path)
+
+        self._patch(posixpath, "expanduser", sim_expanduser)
         self._patch(builtins, "open", sim_open)
         self._patch(io, "open", sim_open)
         self._patch(os, "stat", sim_stat)
